@@ -1,5 +1,6 @@
 (* Correspondence for C19: one case = one in-memory file written by ncf2ffi1001, the text read
    back by ffi1001, auto-detection by getreader, and a second write/read cycle. *)
+From Coq Require Export String.
 From PNC Require Export Base.Util Model.Icartt.
 Local Open Scope Z_scope.
 
